@@ -89,9 +89,16 @@ func c16allDefs(v ssa.Value, leaf func(ssa.Value) bool) bool {
 			return walk(y.X, d+1)
 		case *ssa.Convert:
 			return walk(y.X, d+1)
+		case *ssa.Field:
+			// the key carried in a field of a small repository struct (an endpoint / request value built from the target
+			// and handed from step to step): every store of the repository into that field
+			return c16allFieldStores(y.X.Type(), y.Field, func(s ssa.Value) bool { return walk(s, d+1) })
 		case *ssa.UnOp:
 			if y.Op != token.MUL {
 				return false
+			}
+			if fa, ok := y.X.(*ssa.FieldAddr); ok {
+				return c16allFieldStores(deref(fa.X.Type()), fa.Field, func(s ssa.Value) bool { return walk(s, d+1) })
 			}
 			var cell ssa.Value = y.X
 			if fv, ok := cell.(*ssa.FreeVar); ok {
@@ -151,6 +158,24 @@ func c16allDefs(v ssa.Value, leaf func(ssa.Value) bool) bool {
 		return false
 	}
 	return walk(v, 0)
+}
+
+// c16allFieldStores: field idx of t belongs to a named struct of the repository, something is stored into it somewhere,
+// and every value the repository stores into it (struct literals included) satisfies ok. Type-based and flow-insensitive:
+// it does not matter how the struct travels (by value, by pointer, through a helper's result or parameter).
+func c16allFieldStores(t types.Type, idx int, ok func(ssa.Value) bool) bool {
+	named, isN := types.Unalias(t).(*types.Named)
+	if !isN || idx < 0 || c16cache.c == nil || named.Obj().Pkg() == nil || !isRepoPkgPath(named.Obj().Pkg().Path()) {
+		return false
+	}
+	n := 0
+	for _, s := range c16storesToField(named, idx) {
+		n++
+		if !ok(s.Val) {
+			return false
+		}
+	}
+	return n > 0
 }
 
 // c16binding: the value bound to a closure's captured variable where the closure is made.
